@@ -322,8 +322,8 @@ def check(ck):
         ck.ob(R2, mi.key(None, "module-function"), ok3, "unversioned name = module%sfunction qualname" % d_module if ok3 else
               "the unversioned name is no longer module + %r + qualname" % d_module, mi.where())
         rs = ck.repo.func("code_hash.resolve_to_symbolic_names").nested.get("resolve_to_symbol")
-        ck.need(rs is not None, "resolve_to_symbolic_names.resolve_to_symbol not found")
-        rfa = FA(ck, rs)
+        # (when the nested helper was inlined into its only caller, the cut is looked for there)
+        rfa = FA(ck, rs if rs is not None else ck.repo.func("code_hash.resolve_to_symbolic_names"))
         # X = X[0:X.find('#')] ... for a local X holding the versioned qualified name
         cut = []
         for s_ in rfa.stmts(ast.Assign):
